@@ -10,10 +10,14 @@ import (
 	"os"
 	"sort"
 	"sync"
+	"sync/atomic"
 	"testing"
 	"time"
 
 	"github.com/kercylan98/vivid"
+	"github.com/kercylan98/vivid/internal/actor"
+	"github.com/kercylan98/vivid/internal/mailbox"
+	"github.com/kercylan98/vivid/internal/remoting/serialize"
 	"github.com/kercylan98/vivid/verif/internal/rlab"
 	"github.com/kercylan98/vivid/verif/internal/vstat"
 	"github.com/kercylan98/vivid/verif/internal/vt"
@@ -31,6 +35,48 @@ type Case struct {
 	N        int    `json:"n"`
 	Reverse  bool   `json:"reverse"`          // the receiver also sends a burst back (direct link)
 	IdleMs   int    `json:"idleMs,omitempty"` // a warm-up message, then the link stays idle this long before the burst
+	// Race: all senders are released together as the very first traffic towards the peer; only message 0
+	// of sender 0 has Size bytes, everything else is tiny (a later message must not overtake it)
+	Race bool `json:"race,omitempty"`
+	// NearLimit d > 0: the even messages are sized so that the frame announces exactly 4 MiB - d bytes
+	// (legal: the receiver rejects more than 4 MiB), the odd ones are tiny
+	NearLimit int `json:"nearLimit,omitempty"`
+}
+
+const frameLimit = 4 << 20
+
+// bodySize is the body length of message i of sender s.
+func (c Case) bodySize(s int32, i int64, near int) int {
+	switch {
+	case c.Race:
+		if s == 0 && i == 0 {
+			return c.Size
+		}
+		return 8
+	case c.NearLimit > 0:
+		if i%2 == 0 {
+			return near
+		}
+		return 16
+	}
+	return c.Size
+}
+
+// nearLimitBody finds the body length for which the envelope of a Tell from the system to target is
+// exactly want bytes long (the number the 4-byte prefix announces).
+func nearLimitBody(from *actor.System, target vivid.ActorRef, want int) (int, error) {
+	n := want - 200
+	for k := 0; k < 6; k++ {
+		b, err := serialize.EncodeEnvelopWithRemoting(nil, mailbox.NewEnvelop(false, from.Ref(), target, &rlab.Msg{Sender: 0, Seq: 2, Kind: rlab.KData, Body: make([]byte, n)}))
+		if err != nil {
+			return 0, err
+		}
+		if len(b) == want {
+			return n, nil
+		}
+		n += want - len(b)
+	}
+	return 0, fmt.Errorf("no body length gives a frame of %d bytes", want)
 }
 
 func (c Case) JSON() string { b, _ := json.Marshal(c); return string(b) }
@@ -71,7 +117,19 @@ func genCase(t *rapid.T) Case {
 		c.N = 4096 // millions of tiny writes only make the case slow
 	}
 	c.Reverse = rapid.IntRange(0, 3).Draw(t, "reverse") == 0
+	switch rapid.IntRange(0, 9).Draw(t, "shape") {
+	case 0: // concurrent first contact
+		c = genRace(t)
+	case 1, 2: // frames just under the limit
+		c = Case{Senders: 1, Burst: rapid.IntRange(1, 4).Draw(t, "nearBurst"), NearLimit: rapid.IntRange(1, 8).Draw(t, "belowLimit"),
+			Mode: rapid.SampledFrom([]string{"exact", "chunks", "split"}).Draw(t, "nearMode"), N: 4096}
+	}
 	return c
+}
+
+func genRace(t *rapid.T) Case {
+	return Case{Race: true, Senders: rapid.IntRange(2, 6).Draw(t, "racers"), Burst: rapid.IntRange(2, 4).Draw(t, "raceBurst"),
+		Size: rapid.SampledFrom([]int{70000, 1 << 20, 2 << 20}).Draw(t, "raceSize"), Mode: rapid.SampledFrom([]string{"exact", "chunks"}).Draw(t, "raceMode"), N: 4096}
 }
 
 type verdict struct{ sig, detail string }
@@ -103,6 +161,14 @@ func run(c Case) (v *verdict, inconclusive string, nontrivial bool, labels []str
 		}
 		time.Sleep(time.Duration(c.IdleMs) * time.Millisecond)
 	}
+	near := 0
+	if c.NearLimit > 0 {
+		if near, err = nearLimitBody(A.Sys, target, frameLimit-c.NearLimit); err != nil {
+			return nil, "cannot size the message: " + err.Error(), false, nil
+		}
+	}
+	var release atomic.Bool
+	var ready atomic.Int32
 	type askRec struct {
 		sender int32
 		seq    int64
@@ -115,8 +181,17 @@ func run(c Case) (v *verdict, inconclusive string, nontrivial bool, labels []str
 		wg.Add(1)
 		go func(s int32) {
 			defer wg.Done()
+			bodies := make([][]byte, c.Burst)
+			for i := range bodies {
+				bodies[i] = rlab.Body(s, int64(i), c.bodySize(s, int64(i), near))
+			}
+			if c.Race {
+				ready.Add(1)
+				for !release.Load() {
+				}
+			}
 			for i := 0; i < c.Burst; i++ {
-				body := rlab.Body(s, int64(i), c.Size)
+				body := bodies[i]
 				if c.AskEvery > 0 && i%c.AskEvery == 0 {
 					f := A.Sys.Ask(target, &rlab.Msg{Sender: s, Seq: int64(i), Kind: rlab.KAsk, Body: body}, 20*time.Second)
 					amu.Lock()
@@ -137,6 +212,12 @@ func run(c Case) (v *verdict, inconclusive string, nontrivial bool, labels []str
 				B.Sys.Tell(back, &rlab.Msg{Sender: 100, Seq: int64(i), Kind: rlab.KData, Body: rlab.Body(100, int64(i), c.Size%5000)})
 			}
 		}()
+	}
+	if c.Race {
+		for int(ready.Load()) != c.Senders {
+			time.Sleep(time.Millisecond)
+		}
+		release.Store(true)
 	}
 	wg.Wait()
 	// fences, one at a time on an idle link: once one is processed, everything sent before it on that
@@ -168,7 +249,7 @@ func run(c Case) (v *verdict, inconclusive string, nontrivial bool, labels []str
 		return nil, fmt.Sprintf("no fence message arrived within the budget and the receiver reported neither a decode failure nor a closed connection (case %s)", c.JSON()), false, nil
 	}
 	// ---- oracle
-	check := func(got []rlab.Rec, senders []int32, burst, size int, wantAddr string, dir string) *verdict {
+	check := func(got []rlab.Rec, senders []int32, burst int, size func(int32, int64) int, wantAddr string, dir string) *verdict {
 		per := map[int32][]rlab.Rec{}
 		for _, r := range got {
 			if r.Kind == rlab.KData || r.Kind == rlab.KAsk {
@@ -188,7 +269,7 @@ func run(c Case) (v *verdict, inconclusive string, nontrivial bool, labels []str
 					return &verdict{"C11/in-order", fmt.Sprintf("%s: sender %d: message %d delivered after %d; case %s", dir, s, r.Seq, last, c.JSON())}
 				}
 				last = r.Seq
-				want := rlab.Body(s, r.Seq, size)
+				want := rlab.Body(s, r.Seq, size(s, r.Seq))
 				if r.Len != len(want) || r.Sum != rlabSum(want) {
 					return &verdict{"C11/intact", fmt.Sprintf("%s: message %d of sender %d arrived with %d bytes (sent %d) or a different content; case %s", dir, r.Seq, s, r.Len, len(want), c.JSON())}
 				}
@@ -212,11 +293,11 @@ func run(c Case) (v *verdict, inconclusive string, nontrivial bool, labels []str
 	for s := 0; s < c.Senders; s++ {
 		ss = append(ss, int32(s))
 	}
-	if v = check(B.Sink.Got(), ss, c.Burst, c.Size, A.Addr, "A->B"); v != nil {
+	if v = check(B.Sink.Got(), ss, c.Burst, func(s int32, i int64) int { return c.bodySize(s, i, near) }, A.Addr, "A->B"); v != nil {
 		return
 	}
 	if c.Reverse {
-		if v = check(A.Sink.Got(), []int32{100}, c.Burst, c.Size%5000, B.Addr, "B->A"); v != nil {
+		if v = check(A.Sink.Got(), []int32{100}, c.Burst, func(int32, int64) int { return c.Size % 5000 }, B.Addr, "B->A"); v != nil {
 			return
 		}
 	}
@@ -234,7 +315,7 @@ func run(c Case) (v *verdict, inconclusive string, nontrivial bool, labels []str
 			return &verdict{"C11/ask-reply|error", fmt.Sprintf("Ask %d of sender %d over a healthy link: %v; case %s", a.seq, a.sender, err, c.JSON())}, "", false, nil
 		}
 		rp, ok := m.(*rlab.Msg)
-		if !ok || rp.Kind != rlab.KReply || rp.Sender != a.sender || rp.Seq != a.seq || rlabSum(rp.Body) != rlabSum(rlab.Body(a.sender, a.seq, c.Size)) {
+		if !ok || rp.Kind != rlab.KReply || rp.Sender != a.sender || rp.Seq != a.seq || rlabSum(rp.Body) != rlabSum(rlab.Body(a.sender, a.seq, c.bodySize(a.sender, a.seq, near))) {
 			return &verdict{"C11/ask-reply|foreign", fmt.Sprintf("Ask %d of sender %d got the reply %+v; case %s", a.seq, a.sender, m, c.JSON())}, "", false, nil
 		}
 	}
@@ -246,7 +327,14 @@ func run(c Case) (v *verdict, inconclusive string, nontrivial bool, labels []str
 	}
 	nontrivial = proxy.WritesMultiFrame.Load() > 0 || proxy.WritesSplitFrame.Load() > 0
 	labels = []string{"mode:" + c.Mode}
+	if c.Race {
+		labels = append(labels, "concurrent-first-contact")
+		nontrivial = true
+	}
 	switch {
+	case c.NearLimit > 0:
+		labels = append(labels, "size:within-8-bytes-of-the-limit")
+		nontrivial = true
 	case c.Size >= 1<<20:
 		labels = append(labels, "size:>=1MiB")
 	case c.Size >= 4096:
@@ -290,12 +378,18 @@ func check(fatalf func(string, ...any), c Case) {
 		if vstat.Fail(v.sig, v.detail, c) {
 			return
 		}
+		vstat.FailFast(v.sig, v.detail)
 		fatalf("VERIF-FAIL sig=%s :: %s", v.sig, v.detail)
 	}
 }
 
 func TestC11HealthyLink(t *testing.T) {
 	rapid.Check(t, func(rt *rapid.T) { check(rt.Fatalf, genCase(rt)) })
+}
+
+// several goroutines of one system contact the peer for the first time at the same instant
+func TestC11FirstContact(t *testing.T) {
+	rapid.Check(t, func(rt *rapid.T) { check(rt.Fatalf, genRace(rt)) })
 }
 
 // the shapes the generator found on the pinned tree
@@ -305,6 +399,9 @@ func TestC11Regressions(t *testing.T) {
 		{Senders: 1, Burst: 50, Size: 10, Mode: "coalesce", N: 8},
 		{Senders: 2, Burst: 10, Size: 4097, Mode: "split", N: 3, AskEvery: 3},
 		{Senders: 1, Burst: 20, Size: 64, Mode: "exact", IdleMs: 10600}, // a connection older than the 10 s handshake deadline
+		{Senders: 1, Burst: 4, NearLimit: 1, Mode: "exact"},
+		{Senders: 1, Burst: 3, NearLimit: 4, Mode: "chunks", N: 4096},
+		{Senders: 4, Burst: 3, Size: 2 << 20, Race: true, Mode: "exact"},
 	} {
 		check(t.Fatalf, c)
 	}
